@@ -1,9 +1,16 @@
 (* C04 — Cancellation containment: shields hold and the right scope absorbs.
    This file contains only statements closed by `exact` and their Print Assumptions.
    Model: scopes/Machine.v (S machine).  Tie T: ChainGen.v is regenerated from the Python source by
-   tools/translate_chain.py on every check; the *_gen_eq theorems below are what breaks when a walk changes. *)
+   tools/translate_chain.py on every check; the *_gen_eq theorems below are what breaks when a walk changes.
+   reach_ok s ("reachable state of the generated domain", TreeStep.v) = s is reached from init by an op list
+   satisfying TreeStep.ops_ok, which restricts exactly this: AEnter only on an allocated scope that is neither a task
+   group's own scope nor a task handle's scope; AExit on such a scope (or when its three guards reject it anyway);
+   AGroupEnter on an allocated group; AFinish only when the task is back at its base scope; ARun (HWake t f) only
+   for f = the future t waits on.  Nothing else is restricted: in particular ops_ok admits entering a scope twice and
+   cancel / shield / deadline assignments on any scope (the case GENERATOR of the harness is narrower; that is not a
+   hypothesis of any theorem here). *)
 From AV Require Import Base Machine ChainSpec ChainGen ChainEq ChainFrame ChainThms ChainWalk ChainMono NativeAbsorbed.
-From AV Require Import DeliverInv TreeStep ChainReach ChainWindow DeliverAlive ReceiptWalk ReceiptRun AuditWitness.
+From AV Require Import DeliverInv TreeStep ChainReach ChainWindow DeliverAlive ReceiptWalk ReceiptRun AuditWitness ChainWitness.
 
 (* ---------------- tie T: generated code = specification, for all chains ---------------- *)
 (* a scope record carries r_hosted = `_host_task is not None` (entered, not yet exited).  Since the F42 fix the walks
@@ -74,8 +81,9 @@ Theorem C04_f42_new_walks :
 Proof. exact f42_new_walks. Qed.
 Print Assumptions C04_f42_new_walks.
 
-(* the pre-fix walk (shields only) on the same chain: effectively cancelled although no delivery path exists
-   (delivery is downward through _child_scopes, the exited scope is unlinked): the spin of F42 *)
+(* the pre-fix walk (shields only) on the same chain says "effectively cancelled" where the fixed walk says no.  This
+   pins the two walks on that chain; the spin itself (no delivery path to the task, because delivery is downward
+   through _child_scopes and the exited scope is unlinked) is not modelled in S and is not part of the statement. *)
 Theorem C04_f42_old_walk_refuted_pinned :
   let chain := [mkRec false false None false false; mkRec true false (Some 3%Z) true true] in
   sh_cancelled_spec chain = true /\ eff_cancelled_spec chain = false.
@@ -109,9 +117,11 @@ Proof. exact is_anyio_cancellation_spec_iff. Qed.
 Print Assumptions C04_is_anyio_cancellation_spec_meaning.
 
 (* ---------------- the machine evaluates exactly these functions (through chain_of) ---------------- *)
-(* The machine's walks stop at shields only.  They are the generated walks on every chain whose scopes are all still
-   entered, and in every reachable state of the generated domain (reach_ok, TreeStep.v) every walk that starts at an
-   active scope -- in particular at a task's current scope -- only visits entered scopes. *)
+(* The machine's walks stop at shields only.  They equal the generated walks on chains whose scopes are all still
+   entered (the C04_machine_*_is_generated theorems carry that hypothesis; only the restart target is unconditional).
+   In every reach_ok state every scope visited by a walk that STARTS AT A TASK'S CURRENT SCOPE
+   (C04_reach_walks_see_entered_scopes) or at any ACTIVE scope (the C04_reach_*_is_generated theorems carry
+   `s_active (scopes s c) = true`) is still entered; nothing is claimed for walks from other start points. *)
 Theorem C04_reach_walks_see_entered_scopes : forall (s : st) (fuel : nat) (t : tid),
   reach_ok s -> Forall (fun r => r_hosted r = true) (chain_of fuel s (k_cur (tasks s t))).
 Proof. exact reach_walks_see_entered_scopes. Qed.
@@ -258,7 +268,11 @@ Theorem C04_deliver_touches_only_reach : forall (fuel : nat) (s : st) (self orig
 Proof. exact deliver_touches_only_reach. Qed.
 Print Assumptions C04_deliver_touches_only_reach.
 
-(* TreeOK (parent/children consistent; t in _tasks of x -> x is t's current scope) is a hypothesis here *)
+(* The three theorems about `deliver` around this one hold for any fuel and any state.  This one is about the top-level
+   call `deliver_top s c` (fuel S (nscope s)) of a scope with cancel_called; TreeOK (parent/children consistent; t in
+   _tasks of x -> x is t's current scope) is a hypothesis, and the conclusion is the walk with fuel S (nscope s)
+   (`eff_cancelled_from`), not the machine's `eff_cancelled` -- for that see
+   C04_request_only_if_effectively_cancelled_reach. *)
 Theorem C04_cancel_only_if_effectively_cancelled : forall (s : st) (c : sid) (t : tid),
   (forall p k, In k (s_children (scopes s p)) -> s_parent (scopes s k) = Some p) ->
   (forall u x, In u (s_tasks (scopes s x)) -> k_cur (tasks s u) = Some x) ->
@@ -290,9 +304,9 @@ Proof. exact shield_raised_after_request_witness. Qed.
 Print Assumptions C04_shield_raised_after_request_refuted.
 
 (* ---------------- containment on the generated domain, request time and receipt time ---------------- *)
-(* reach_ok s = s is reached from init by an op list of the generated domain (TreeStep.ops_ok).  The tree hypotheses
-   of C04_cancel_only_if_effectively_cancelled are discharged and the conclusion uses the machine's own
-   eff_cancelled (= the generated walk, C04_reach_eff_cancelled_is_generated). *)
+(* reach_ok: see the header.  The tree hypotheses of C04_cancel_only_if_effectively_cancelled are discharged and the
+   conclusion uses the machine's own eff_cancelled (= the generated walk on active scopes,
+   C04_reach_eff_cancelled_is_generated).  Non-vacuity: C04_request_reach_witness below. *)
 Theorem C04_request_only_if_effectively_cancelled_reach : forall (s : st) (c : sid) (t : tid),
   reach_ok s -> s_cancelled (scopes s c) = true ->
   tasks (deliver_top s c) t <> tasks s t ->
@@ -309,6 +323,21 @@ Theorem C04_reach_request_chain : forall (s : st) (c : sid) (t : tid),
     forall j y, j < n -> up s x j = Some y -> s_cancelled (scopes s y) = false /\ s_shield (scopes s y) = false.
 Proof. exact reach_request_chain. Qed.
 Print Assumptions C04_reach_request_chain.
+
+(* non-vacuity of the two theorems above: rq_state = final step init [ANewRoot; ANewScope 1 None false; AEnter 1 1;
+   ANewScope 1 None false; AEnter 1 2; ANewScope 1 None false; AEnter 1 3; ACancel 1 1; AYield 1] -- task 1 in scope 3
+   inside 2 inside 1 cancelled scope 1 itself (the delivery skipped the running task) and yielded; the pending
+   HDeliver 1 now cancels it: a reach_ok state, cancelled scope, a task record really changed, two scopes below c *)
+Theorem C04_request_reach_witness :
+  reach_ok rq_state /\ s_cancelled (scopes rq_state 1) = true /\ In (HDeliver 1) (ready rq_state) /\
+  tasks (deliver_top rq_state 1) 1 <> tasks rq_state 1 /\
+  k_must (tasks rq_state 1) = false /\ k_must (tasks (deliver_top rq_state 1) 1) = true /\
+  k_cur (tasks rq_state 1) = Some 3 /\ eff_cancelled rq_state 3 = true /\ s_shield (scopes rq_state 3) = false /\
+  vpath rq_state 1 3 2 /\ up rq_state 3 2 = Some 1 /\
+  s_cancelled (scopes rq_state 3) = false /\ s_cancelled (scopes rq_state 2) = false /\
+  s_shield (scopes rq_state 2) = false.
+Proof. exact request_reach_witness. Qed.
+Print Assumptions C04_request_reach_witness.
 
 (* The gap between request time (s0) and receipt time (s1), stated precisely: if the chain above the task's current
    scope is unchanged and the origin is still cancelled (cancel_called is never reset,
